@@ -27,7 +27,8 @@
 (***************************************************************************)
 EXTENDS Server, Json
 
-CONSTANTS GenMode, MaxChanges
+CONSTANTS GenMode, MaxChanges,
+          FollowCmds   \* commands tried as follow-ons (the whole alphabet, or the registered ones)
 
 VARIABLES hist, gph, gchg, gconn, gn
 
@@ -40,6 +41,7 @@ H(r) == hist' = Append(hist, r)
 GConnectArgs ==
   { <<cmd, kind, want, user>> \in AllCmds \X Kinds \X Wants \X Users :
       /\ (kind # "honest" => user = "alice")
+      /\ (kind = "noCipher" => want = "weak")     \* demanding encryption without a cipher just fails
       /\ (cmd \notin AuthCmds => (kind = "honest" /\ want = "weak" /\ user = "alice")) }
 
 GConnect ==
@@ -75,7 +77,7 @@ GRaw ==
 Alive == conn.st = "open" /\ conn.pending = None /\ conn.via # "raw"
 
 GFollowOn ==
-  \E cmd \in AllCmds :
+  \E cmd \in FollowCmds :
     IF Alive
     THEN FollowOn(cmd) /\ H([a |-> "FollowOn", cmd |-> cmd, ghost |-> FALSE])
     ELSE UNCHANGED vars /\ H([a |-> "FollowOn", cmd |-> cmd, ghost |-> TRUE])
